@@ -38,7 +38,7 @@ impl Gen {
     }
     pub fn next(&mut self, rng: &mut Rng, i: u64) -> Option<(String, Value)> {
         match self.driver.as_str() {
-            "hostile" => Some(hostile::next(rng)),
+            "hostile" => Some(hostile::next(rng, i)),
             "@cases" => {
                 let line = self.cases.as_mut().unwrap().next()?.ok()?;
                 let v: Value = serde_json::from_str(&line).ok()?;
